@@ -85,6 +85,19 @@ CLAIMED["C01"] = dict(
          "canonicalise it) and excluded by stated precondition; the byte store under the library is C02's subject.",
 )
 
+CLAIMED["C11"] = dict(
+    text="Proof over the reals: rotation_matrix_from_vectors (general branch) maps the direction of v1 to that of v2, is orthogonal with "
+         "det +1; rotation_matrix_from_axis is orthogonal, det +1, fixes the axis, has trace 1+2cos and the right-handed sense; "
+         "translate/transform (and the ensemble variants, center_at_atom) preserve all pairwise distances and the signed volume; "
+         "rotate_dihedral moves only the far side, by exactly the right-handed rotation about the central bond by target-current, and a "
+         "lemma on the real dihedral() formula shows such a rotation adds the angle. Polynomial identities by sympy ideal membership.",
+    ref="DESIGN.md section 3 C11, section 4",
+    technique="contract-based deductive verification: VCs from the real AST by pyvc, polynomial identities discharged by sympy (Groebner reduction), branch logic by z3",
+    note="Floats treated as reals; numpy linear algebra modelled (trusted); dihedral invariance under rigid motion assumed (textbook); NOT "
+         "decided: the antiparallel branch of rotation_matrix_from_vectors (np.random, loop) beyond reachability, alignment RMSD/pose "
+         "independence (caller-supplied SVD), behaviour within rounding distance of degenerate inputs.",
+)
+
 NOT_APPLICABLE = {
 }
 
